@@ -16,7 +16,7 @@ import c09
 
 META = {
     "level": "other",
-    "technique": "static analysis: per-path effect analysis of iterator methods against their size_hint formula, MIR twin isomorphism, raw-value propagation for nth (MIR, rustc_private driver)",
+    "technique": "static analysis: per-path effect analysis of iterator methods against their size_hint formula, MIR twin isomorphism, raw-value propagation for nth, value provenance of two-ended cursor candidates, conditional-advance atomicity, scan-iterator hand-on dataflow (MIR, rustc_private driver; bodies normalised by helper inlining and combinator expansion)",
     "explanation": "size_hint of each of the 11 ExactSizeIterator types is reduced to r = L - N (two field paths or a getter of the parent). "
                    "In next/next_back/nth/nth_back every store that can change N or L is classified (+1, -1, +n+1, clamp, to-limit, other); "
                    "every CFG path to a `Some` return must contain exactly one counting store outside any loop, every path to `None` none "
